@@ -143,7 +143,7 @@ type World struct {
 }
 
 type loginRec struct {
-	rul   common.RemoteUserLogin
+	rul    common.RemoteUserLogin
 	frozen []byte // JSON of the identity at creation
 }
 
@@ -281,9 +281,9 @@ func (w *World) makeLogin(id, p int, register bool) common.RemoteUserLogin {
 }
 
 type identity struct {
-	Subjects map[string]string     `json:"subjects"`
+	Subjects map[string]string      `json:"subjects"`
 	Source   auditevent.EventSource `json:"source"`
-	Target   map[string]string     `json:"target"`
+	Target   map[string]string      `json:"target"`
 }
 
 func identityOf(e *auditevent.AuditEvent) identity {
